@@ -2642,9 +2642,13 @@ impl<'a, R: FileManager> FrontendCtx<'a, R> {
         &mut self,
         q: &TsEntityName,
         file: BffFileName,
+        // how the leftmost name is looked up in `file` (an export of it for typeof import("./m").obj.a), and the file
+        // the name is written in
+        visibility: Visibility,
+        referring_file: &BffFileName,
     ) -> Res<AddressedQualifiedValue> {
         let anchor = Anchor {
-            f: file.clone(),
+            f: referring_file.clone(),
             s: q.span(),
         };
         match q {
@@ -2652,6 +2656,8 @@ impl<'a, R: FileManager> FrontendCtx<'a, R> {
                 let left_part = self.get_addressed_qualified_value_from_entity_name(
                     &ts_qualified_name.left,
                     file.clone(),
+                    visibility,
+                    referring_file,
                 )?;
                 if let AddressedQualifiedValue::StarOfFile(other_file) = left_part {
                     let new_addr = ModuleItemAddress {
@@ -2668,12 +2674,7 @@ impl<'a, R: FileManager> FrontendCtx<'a, R> {
                 })
             }
             TsEntityName::Ident(ident) => {
-                let addr = ModuleItemAddress::from_ident(
-                    ident,
-                    file.clone(),
-                    // TODO: is visibility correct here?
-                    Visibility::Local,
-                );
+                let addr = ModuleItemAddress::from_ident(ident, file.clone(), visibility);
                 let value_addressed = self.get_addressed_qualified_value(&addr, &anchor)?;
                 Ok(value_addressed)
             }
@@ -2734,11 +2735,14 @@ impl<'a, R: FileManager> FrontendCtx<'a, R> {
         &mut self,
         ts_qualified_name: &TsQualifiedName,
         file: BffFileName,
+        visibility: Visibility,
         anchor: &Anchor,
     ) -> Res<Runtype> {
         let left_value = self.get_addressed_qualified_value_from_entity_name(
             &ts_qualified_name.left,
             file.clone(),
+            visibility,
+            &anchor.f,
         )?;
 
         self.member_access_qualified_value(&left_value, &ts_qualified_name.right.sym, anchor)
@@ -2757,7 +2761,7 @@ impl<'a, R: FileManager> FrontendCtx<'a, R> {
                 self.extract_addressed_value_from_address(&addr, anchor)
             }
             TsEntityName::TsQualifiedName(ts_qualified_name) => {
-                self.extract_value_from_ts_qualified_name(ts_qualified_name, file, anchor)
+                self.extract_value_from_ts_qualified_name(ts_qualified_name, file, visibility, anchor)
             }
         }
     }
